@@ -417,7 +417,7 @@ struct World
   {
     bo = quill::BackendOptions{};
     bo.check_backend_singleton_instance = false;
-    bo.transit_event_buffer_initial_capacity = r.pick({1u, 2u, 4u, 128u});
+    bo.transit_event_buffer_initial_capacity = r.pick({1u, 2u, 4u, 128u}); // "must be a power of two" (BackendOptions.h)
     static size_t const lim[] = {1, 2, 8, 4096, 32768};
     size_t hard = lim[r.below(5)];
     size_t soft = lim[r.below(5)];
